@@ -206,6 +206,35 @@ fn check_map(c: &MapCase, info: &mut Info) -> Result<(), String> {
     Ok(())
 }
 
+/// related inputs back to back: u, -u, u again, a partner, ... each compared with the model
+#[derive(Clone, Debug, Serialize, Deserialize, PartialEq, Eq, Hash)]
+pub struct SeqCase {
+    pub group: u8,
+    pub u0: URecipe,
+    pub steps: Vec<Second>,
+}
+
+fn seq_strategy() -> BoxedStrategy<SeqCase> {
+    let second = prop_oneof![
+        2 => u_strategy().prop_map(Second::Independent),
+        2 => Just(Second::Same),
+        2 => Just(Second::Negated),
+        2 => Just(Second::PartnerSame),
+        2 => Just(Second::PartnerInverse),
+    ];
+    (0u8..2, u_strategy(), proptest::collection::vec(second, 2..5)).prop_map(|(group, u0, steps)| SeqCase { group, u0, steps }).boxed()
+}
+
+fn check_seq(c: &SeqCase, info: &mut Info) -> Result<(), String> {
+    for (i, s) in c.steps.iter().enumerate() {
+        let mut tmp = Info::default();
+        check_map(&MapCase { group: c.group, u0: c.u0.clone(), second: s.clone() }, &mut tmp).map_err(|m| format!("call #{} of a sequence on related inputs: {}", i, m))?;
+    }
+    info.nt();
+    info.class(format!("steps={}", c.steps.len()));
+    Ok(())
+}
+
 pub fn def() -> PropDef {
     PropDef {
         id: "C14",
@@ -214,6 +243,7 @@ pub fn def() -> PropDef {
         subs: vec![
             Box::new(Sub { name: "g1", rule: "G1 map_to_curve and map2_to_curve vs model composition", quick: 3_750, thorough: 50_000, strategy: || boxed(map_case_strategy(0)), check: check_map }),
             Box::new(Sub { name: "g2", rule: "G2 map_to_curve and map2_to_curve vs model composition", quick: 1_000, thorough: 12_000, strategy: || boxed(map_case_strategy(1)), check: check_map }),
+            Box::new(Sub { name: "related-sequences", rule: "2..4 calls back to back on the same u0 with related second inputs (u0, -u0, constructed partners, independent), each compared with the model (no dependence on earlier calls)", quick: 300, thorough: 8_000, strategy: || boxed(seq_strategy()), check: check_seq }),
         ],
         assumptions: COMMON_ASSUMPTIONS.to_vec(),
     }
